@@ -50,7 +50,45 @@ def touch(f):
     return f
 
 
-BUILD = {"calls": 0, "offset": 0, "warm_builds": 0, "mode": "alternate"}
+BUILD = {"calls": 0, "offset": 0, "warm_builds": 0, "mode": "alternate", "plain_str_runs": 0,
+         "shared_run_objects": 0, "interrupted_views": 0, "interrupts_fired": 0}
+_FP = [None]
+
+
+def _coin(salt):
+    x = ((BUILD["calls"] + salt * 7919) * 2654435761 + BUILD["offset"] * 40503) & 0xFFFFFFFF
+    x ^= x >> 15
+    x = (x * 2246822519) & 0xFFFFFFFF
+    x ^= x >> 13
+    return x
+
+
+def touch_interrupted(f, k):
+    """Use f's views while a KeyboardInterrupt (sys.monitoring failpoint) lands at the k-th
+    statement of curtsies code they execute - what a Ctrl-C during a render does - and then
+    go on using the value, as an interactive application does."""
+    from . import inject
+    if _FP[0] is None:
+        _FP[0] = inject.Failpoints()
+        _FP[0].install()
+        _FP[0].mon.set_events(_FP[0].tool, 0)
+    fp = _FP[0]
+    fp.mon.set_events(fp.tool, fp.mon.events.LINE)
+    try:
+        for view in (str, lambda x: x.s, len, lambda x: x.width):
+            BUILD["interrupted_views"] += 1
+            fp.arm(k)
+            try:
+                view(f)
+            except inject.Inject:
+                BUILD["interrupts_fired"] += 1
+            except Exception:  # noqa
+                pass
+            finally:
+                fp.disarm()
+    finally:
+        fp.mon.set_events(fp.tool, 0)
+    return f
 
 
 def build(spec, warm=None):
@@ -74,18 +112,44 @@ def build(spec, warm=None):
     if not spec:
         f = FmtStr()
         return touch(f) if warm else f
-    if not warm:
-        parts = [fmtstr(text, **atts) for text, atts in spec]
-        f = parts[0]
-        for p in parts[1:]:
-            f = f + p
-        return f
-    BUILD["warm_builds"] += 1
+    # Further route variations, each by its own seeded coin:
+    #  - a run without attributes joins as a plain str operand (f + "text", "text" + f);
+    #  - identical consecutive runs are the SAME object added twice (p + p), as f * n and
+    #    f + f produce;
+    #  - (warm only, 1 in 48) the views are first used under an injected KeyboardInterrupt.
+    if warm:
+        BUILD["warm_builds"] += 1
     f = None
-    for text, atts in spec:
-        base = touch(fmtstr(text))
-        part = touch(fmtstr(base, **atts))
-        f = part if f is None else touch(f + part)
+    prev_spec = prev_part = None
+    for i, (text, atts) in enumerate(spec):
+        c = _coin(i + 1)
+        if prev_part is not None and [text, atts] == prev_spec and text and c & 2:
+            part = prev_part
+            BUILD["shared_run_objects"] += 1
+        elif not atts and (c & 12) == 4 and (f is not None or len(spec) > 1):
+            part = text                      # plain str operand
+            BUILD["plain_str_runs"] += 1
+        elif warm:
+            base = touch(fmtstr(text))
+            part = fmtstr(base, **atts)
+            if (c >> 4) % 48 == 1:
+                touch_interrupted(part, 1 + (c >> 8) % 12)
+            touch(part)
+        else:
+            part = fmtstr(text, **atts)
+        prev_spec, prev_part = [text, atts], (part if not isinstance(part, str) else None)
+        if f is None:
+            f = part
+        elif isinstance(f, str) and isinstance(part, str):
+            f = fmtstr(f) + part
+        else:
+            f = f + part
+            if warm:
+                if (c >> 6) % 24 == 1:
+                    touch_interrupted(f, 1 + (c >> 12) % 16)     # first use of the fresh value
+                touch(f)
+    if isinstance(f, str):
+        f = fmtstr(f)
     return f
 
 
@@ -107,6 +171,38 @@ def cells(f, strict=True):
         if text != g.s or len(g) != len(cs):
             raise ObservationFailed("displayed text %r, .s %r, len %r" % (text, g.s, len(g)))
     return cs
+
+
+def result_problems(r, want):
+    """Compare a FmtStr result with the wanted cell list.  Uses the fresh-copy observation AND
+    the result's own (possibly pre-filled) views len(), .s and str(); anything the real code
+    raises while being observed is a problem of the result, not of the harness.
+    -> (problems, observed cells or None)"""
+    from curtsies.formatstring import FmtStr
+    if not isinstance(r, FmtStr):
+        return ["result is %s, not a FmtStr" % type(r).__name__], None
+    try:
+        got = cells(r)
+    except ObservationFailed as ex:
+        return ["incoherent result: %s" % ex], None
+    except Exception as ex:  # noqa
+        return ["observing the result raised %r" % (ex,)], None
+    problems = []
+    if got != want:
+        problems.append("cells differ")
+    try:
+        n = len(r)
+        if n != len(want):
+            problems.append("len() gives %r for %d characters" % (n, len(want)))
+        t = r.s
+        if t != text_of(want):
+            problems.append(".s gives %r" % (t,))
+        own, final, other = sgr.interpret(str(r))
+        if own != want or other or final != sgr.DEFAULT:
+            problems.append("the result's own str() displays %s" % show(own))
+    except Exception as ex:  # noqa
+        problems.append("the result's own views raise %r" % (ex,))
+    return problems, got
 
 
 def cells_struct(f):
@@ -178,6 +274,8 @@ def rand_spec(rng, maxruns=4, maxlen=4, alphabet="abc", empty_runs=True, palette
         text = "".join(rng.choice(alphabet) for _ in range(l))
         atts = dict(rng.choice(palette)) if palette else rand_atts(rng)
         spec.append([text, atts])
+        if text and rng.random() < .08 and len(spec) < maxruns + 2:
+            spec.append([text, dict(atts)])        # the same run again (as f * 2 / f + f give)
     return spec
 
 
